@@ -299,12 +299,40 @@ def _distinct_extents(shape):
     return len(set(shape)) == len(shape)
 
 
+def _kwtxt(kw):
+    return "".join(f", {k}={v!r}" for k, v in kw.items())
+
+
+def _reduce(img, axis, mode, kw, d, tags):
+    """reduce_axis on an input of its domain (valid axis, valid layer index of that axis)."""
+    try:
+        return darsia.reduce_axis(img, axis, mode, **kw)
+    except IndexError as e:
+        raise Violation(f"reduce-fails:{mode}:dim{d}",
+                        f"reduce_axis(img, {axis!r}, {mode!r}{_kwtxt(kw)}) on an image of shape "
+                        f"{list(img.img.shape)} raised IndexError({e}) although the index is a "
+                        f"valid layer of the addressed axis", tags)
+
+
+def _reduced_along(arr, mm, mode, kw, got):
+    """diagnostics only: is ``got`` the reduction of ``arr`` along matrix axis ``mm``?"""
+    if mode == "slice":
+        if kw["slice_idx"] >= arr.shape[mm]:
+            return False
+        w = np.take(arr, kw["slice_idx"], axis=mm)
+    else:
+        w = np.sum(arr, axis=mm)
+        if mode == "average":
+            w = w / arr.shape[mm]
+    return w.shape == got.shape and np.array_equal(w, got)
+
+
 def check_name_equals_index_reduce(case):
     spec, d, c, m, sgn, n, v = _named_setup(case)
     mode = case["mode"]
-    # mode "slice": only the resolution of the axis is this property's business (what the mode
-    # extracts is C11's); an index valid on every axis keeps the call inside its input domain
-    kw = {"slice_idx": case["vfrac"] % min(spec["shape"])} if mode == "slice" else {}
+    # mode "slice": any layer of the addressed axis (a valid index there; on an image with
+    # distinct extents it need not be a valid index on the other axes)
+    kw = {"slice_idx": v} if mode == "slice" else {}
     t = {"dim": d, "axis": XYZ[c], "mode": mode}
     by_name_obj = darsia.AxisReduction(XYZ[c], d, mode, **kw)
     by_index_obj = darsia.AxisReduction(m, d, mode, **kw)
@@ -318,17 +346,63 @@ def check_name_equals_index_reduce(case):
         raise Violation(f"reduction-axis:dim{d}",
                         f"AxisReduction resolves {XYZ[c]!r} / {m} to (matrix {by_name_obj.index}, "
                         f"Cartesian {by_name_obj.axis}), coordinate system says ({m}, {c})", t)
-    a = gens.snapshot(darsia.reduce_axis(gens.build_image(spec), XYZ[c], mode, **kw))
-    b = gens.snapshot(darsia.reduce_axis(gens.build_image(spec), m, mode, **kw))
+    src = gens.build_image(spec)
+    arr = np.array(src.img, copy=True)
+    dims_in = [float(x) for x in src.dimensions]
+    a = gens.snapshot(_reduce(src, XYZ[c], mode, kw, d, t))
+    b = gens.snapshot(_reduce(gens.build_image(spec), m, mode, kw, d, t))
     ok, why = gens.snapshot_equal(a, b)
     if not ok:
         raise Violation(f"reduce-name-vs-index:dim{d}",
                         f"reduce_axis(img, {XYZ[c]!r}, {mode!r}) differs from reduce_axis(img, {m}, "
                         f"{mode!r}): {why}", t)
+    # the axis the object resolved is also the axis the reduction *acts on*: the data are the
+    # numpy reduction of the array along the matrix axis the coordinate system pairs with the
+    # addressed Cartesian axis (same float operations as a reduction along one axis performs:
+    # one sum, one division by the voxel count, or one layer), whatever the mode
+    if mode == "slice":
+        want = np.take(arr, kw["slice_idx"], axis=m)
+    else:
+        want = np.sum(arr, axis=m)
+        if mode == "average":
+            want = want / arr.shape[m]
+    for how, got in ((repr(XYZ[c]), a), (repr(m), b)):
+        g = np.asarray(got["img"])
+        if g.shape != want.shape or not np.array_equal(g, want):
+            other = [mm for mm in range(d) if mm != m and _reduced_along(arr, mm, mode, kw, g)]
+            raise Violation(f"reduce-acts-on-other-axis:{mode}:dim{d}",
+                            f"reduce_axis(img, {how}, {mode!r}{_kwtxt(kw)}).img (shape {list(g.shape)}) "
+                            f"is not the {mode} of the array (shape {list(arr.shape)}) along matrix "
+                            f"axis {m}, the axis the coordinate system pairs with {XYZ[c]}"
+                            + (f"; it is the {mode} along matrix axis {other[0]}" if other else ""),
+                            dict(t, addressed="name" if how.startswith("'") else "index"))
+    # ... and the extent that disappears from the metadata is the extent of that matrix axis
+    want_dims = dims_in[:m] + dims_in[m + 1:]
+    for how, got_img in ((repr(XYZ[c]), a), (repr(m), b)):
+        got_dims = [float(x) for x in got_img["meta"]["dimensions"]]
+        if got_dims != want_dims:
+            raise Violation(f"reduce-drops-other-extent:dim{d}",
+                            f"reduce_axis(img, {how}, {mode!r}{_kwtxt(kw)}).dimensions = {got_dims}; "
+                            f"dimensions {dims_in} without matrix axis {m} are {want_dims}", t)
+    # slicing and reduction address the same layer: mode "slice" at index n along an axis holds
+    # the data of Image.slice(n, <matrix index of that axis>)
+    if mode == "slice":
+        ref_img = np.asarray(gens.build_image(spec).slice(kw["slice_idx"], m).img)
+        g = np.asarray(a["img"])
+        if g.shape != ref_img.shape or not np.array_equal(g, ref_img):
+            raise Violation(f"reduce-slice-vs-image-slice:dim{d}",
+                            f"reduce_axis(img, {XYZ[c]!r}, 'slice', slice_idx={kw['slice_idx']}).img "
+                            f"differs from img.slice({kw['slice_idx']}, {m}).img", t)
+    extra = [f"mode-{mode}"]
+    if mode == "slice":
+        extra.append("slice-layer-" + ("only" if n == 1 else "first" if v == 0 else
+                                        "last" if v == n - 1 else "interior"))
+        extra.append("slice-idx-" + ("valid-on-every-axis" if v < min(spec["shape"])
+                                     else "valid-on-addressed-axis-only"))
     return Outcome(nontrivial=d == 3 or _distinct_extents(spec["shape"]),
                    key=[spec["shape"], spec["dimensions"], spec["origin"], spec["payload"],
                         spec["series"], c, mode, v, spec["pseed"]],
-                   labels=_labels_named(spec, c, (f"mode-{mode}",)))
+                   labels=_labels_named(spec, c, extra))
 
 
 def check_name_equals_index_slice(case):
